@@ -446,6 +446,23 @@ theorem C09_model_meets_spec_offset {DL Loc : Type} [DecidableEq Loc] (apiPath :
   rw [hid, hl] at this
   exact this
 
+/-- **The `moduleOffset` string.** What `from_prefixed_hex_str` accepts is a `0x`-prefixed, non-empty string and
+denotes an offset below `2^32`; a body whose offset string it rejects is answered with a parse error and reads
+nothing, whatever file it names. -/
+theorem C09_offset_string {DL Loc : Type} (apiPath : SourceFilePath → String) (m : Manager DL Loc)
+    (r : RawRequest) :
+    (∀ n, parseModuleOffset r.offsetStr = some n →
+      n < 4294967296 ∧ (∃ rest, r.offsetStr = '0' :: 'x' :: rest ∧ rest ≠ []) ∧
+      r.toOffsetRequest = ⟨r.wellFormedJson, r.debugId, n, r.file⟩) ∧
+    (parseModuleOffset r.offsetStr = none →
+      (sourceApiAt apiPath m r.toOffsetRequest).loads = [] ∧
+      (sourceApiAt apiPath m r.toOffsetRequest).outcome = .err .parse) := by
+  constructor
+  · intro n h
+    exact ⟨(parseModuleOffset_some h).1, (parseModuleOffset_some h).2, by simp [RawRequest.toOffsetRequest, h]⟩
+  · intro h
+    simp [RawRequest.toOffsetRequest, h, sourceApiAt, sourceApi]
+
 /-! ## Both endpoints see the same frames
 
 `lookupFresh` = `SymbolMap::lookup` (`/source/v1`), `lookupBatch` = `lookup_sync` + `lookup_external`
@@ -671,3 +688,11 @@ example : ∀ x, C09_exInner.tryCached x = some (.external x) ∨
 example : lookupFresh C09_exInner 2 2 = some (some [⟨some C09_exLocal⟩]) := by decide
 example : lookupBatch C09_exInner 2 2 = some (some [⟨some C09_exLocal⟩]) := by decide
 example : lookupFresh C09_exInner 1 2 = none := by decide
+
+-- the offset string: prefix, sign, case, leading zeros, overflow
+example : parseModuleOffset "0x1d04742".toList = some 30426946 := by decide
+example : parseModuleOffset "0x+1F".toList = some 31 := by decide
+example : parseModuleOffset "0x0000000000ff".toList = some 255 := by decide
+example : parseModuleOffset "0xffffffff".toList = some 4294967295 := by decide
+example : ∀ s ∈ ["0x100000000", "1f", "0X1f", "0x", "0x+", "0x-1", "0x1g", "0x 1", "", "x1", "0x1_0"],
+    parseModuleOffset s.toList = none := by decide
